@@ -1,0 +1,41 @@
+"""
+Verification hooks (add-only instrumentation, off by default).
+
+Enabled only when the environment variable CUTADAPT_VERIF_TRACE is set (to a directory).
+Each hook call records one protocol event at a linearisation point of the multi-core
+runner: after the state change, before the next blocking operation. Events are written
+to <dir>/<role>-<pid>.ndjson with a per-process sequence number (never wall-clock time).
+A test harness may install `scheduler` to receive the events instead (deterministic
+in-process scheduling); the hooks never change what the program computes.
+"""
+import json
+import os
+
+ON = bool(os.environ.get("CUTADAPT_VERIF_TRACE"))
+
+scheduler = None  # optional callable(record: dict), installed by a test harness
+
+_state = {"pid": None, "seq": 0, "files": {}}
+
+
+def event(role, ev, **fields):
+    if not ON:
+        return
+    pid = os.getpid()
+    if _state["pid"] != pid:  # first event in this (possibly forked) process
+        _state["pid"] = pid
+        _state["seq"] = 0
+        _state["files"] = {}
+    record = {"role": role, "pid": pid, "seq": _state["seq"], "ev": ev}
+    record.update(fields)
+    _state["seq"] += 1
+    if scheduler is not None:
+        scheduler(record)
+        return
+    f = _state["files"].get(role)
+    if f is None:
+        directory = os.environ["CUTADAPT_VERIF_TRACE"]
+        f = open(os.path.join(directory, f"{role}-{pid}.ndjson"), "a")
+        _state["files"][role] = f
+    f.write(json.dumps(record) + "\n")
+    f.flush()
